@@ -19,6 +19,8 @@ OkC14(o) ==
     /\ (r.res = "ok") => /\ o.size = r.size
                          /\ o.tail_ok          \* bytes beyond the returned size untouched
                          /\ o.have_big /\ o.same   \* same bytes as with a larger, differently filled buffer
+    \* with a custom padding byte the encoding differs from the ordinary one exactly in the padding bytes
+    /\ ("pad_ok" \in DOMAIN o) => o.pad_ok
 
 VARIABLES l, nbad
 vars == <<l, nbad>>
